@@ -1,7 +1,1115 @@
-//! C14 — not implemented yet.
-use vmon::report::Args;
+//! C14 — schema evolution preserves untouched data.
+//!
+//! Model: ordered column list (name, Arrow type taken from the dataset after each accepted step)
+//! and BTreeMap<id, cells>. Operations: add_columns through SQL expressions (with a reference
+//! evaluation), AllNulls, BatchUDF, Reader and Stream (row-aligned values f(id)), `Dataset::merge`
+//! (left join on id, misses => NULL); alter_columns rename (top level and struct child), cast
+//! (reference = arrow_cast with safe=false on the scanned column), nullability; drop_columns (top
+//! level and struct child); re-adding a previously dropped name; interleaved with appends (in the
+//! current schema), deletes and compaction. After every step: every column's values by id, column
+//! names and order, row order unchanged by schema operations, all field ids unique.
 
-pub fn run(_args: &Args) -> i32 {
-    eprintln!("HARNESS-ERROR C14 not implemented");
-    2
+use arrow_array::builder::{Int64Builder, StringBuilder};
+use arrow_array::{Array, ArrayRef, Int64Array, RecordBatch, RecordBatchIterator};
+use arrow_schema::{DataType, Field, Schema, SchemaRef};
+use futures::TryStreamExt;
+use lance::dataset::optimize::compact_files;
+use lance::dataset::{BatchUDF, ColumnAlteration, NewColumnTransform, WriteMode};
+use lance::Dataset;
+use lance_encoding::version::LanceFileVersion;
+use serde_json::json;
+use std::collections::{BTreeMap, BTreeSet};
+use std::sync::Arc;
+use vmon::prng::{fnv_str, Rng};
+use vmon::report::{Args, Report};
+use vmon::store::World;
+use vmon::table::{cell_at, gen_column, render_row, Actor, Cell, ColSpec, ColTy, IdAlloc, Row};
+
+use crate::gen::{gen_array, type_tag};
+use crate::hist::Finding;
+use crate::util::{guard, install_quiet_panic_hook, run_parallel, selftest_requested, Fail, Histo};
+
+#[derive(Clone, Debug)]
+struct CCol {
+    name: String,
+    dt: DataType,
+    nullable: bool,
+    /// generator for appended rows (original columns); added columns use `gen_array`
+    spec: Option<ColSpec>,
+}
+
+#[derive(Clone, Debug)]
+pub struct M {
+    names: Vec<String>,
+    rows: BTreeMap<i64, Row>,
+}
+
+#[derive(Clone, Debug)]
+pub struct Scan {
+    pub names: Vec<String>,
+    pub rows: Vec<Row>,
+    pub field_ids: Vec<i32>,
+}
+
+async fn scan(ds: &Dataset) -> lance::Result<(Scan, Vec<RecordBatch>)> {
+    let mut s = ds.scan();
+    s.scan_in_order(true);
+    let bs: Vec<RecordBatch> = s.try_into_stream().await?.try_collect().await?;
+    let schema: Schema = ds.schema().into();
+    let names: Vec<String> = schema.fields().iter().map(|f| f.name().clone()).collect();
+    let mut rows = vec![];
+    for b in &bs {
+        for i in 0..b.num_rows() {
+            rows.push(b.columns().iter().map(|c| cell_at(c.as_ref(), i)).collect());
+        }
+    }
+    let field_ids: Vec<i32> = ds.schema().fields_pre_order().map(|f| f.id).collect();
+    Ok((Scan { names, rows, field_ids }, bs))
+}
+
+/// The deciding oracle: pure function of (model, scan before the step, scan after, kind of step).
+pub fn oracle(m: &M, before_order: Option<&[i64]>, after: &Scan, what: &str, schema_op: bool) -> Vec<Finding> {
+    let mut out = vec![];
+    if after.names != m.names {
+        out.push(Finding::new(
+            format!("columns-differ-from-model-after-{what}"),
+            format!("columns {:?}, model {:?}", after.names, m.names),
+            json!({}),
+        ));
+        return out;
+    }
+    let mut ids = BTreeSet::new();
+    for f in &after.field_ids {
+        if *f < 0 || !ids.insert(*f) {
+            out.push(Finding::new(
+                format!("field-id-not-unique-after-{what}"),
+                format!("field id {f} occurs twice (or is unset) in the schema: {:?}", after.field_ids),
+                json!({"field_ids": after.field_ids}),
+            ));
+            break;
+        }
+    }
+    let mut seen = BTreeSet::new();
+    let mut order = vec![];
+    for r in &after.rows {
+        let Some(id) = r[0].as_i64() else {
+            out.push(Finding::new(format!("row-without-id-after-{what}"), "NULL id", json!({})));
+            continue;
+        };
+        order.push(id);
+        if !seen.insert(id) {
+            out.push(Finding::new(format!("duplicate-row-after-{what}"), format!("id {id} twice"), json!({})));
+            continue;
+        }
+        match m.rows.get(&id) {
+            None => out.push(Finding::new(
+                format!("row-resurrected-or-extra-after-{what}"),
+                format!("id {id} is not in the model"),
+                json!({"id": id}),
+            )),
+            Some(e) => {
+                if e != r {
+                    let c = e.iter().zip(r).position(|(a, b)| a != b).unwrap_or(0);
+                    out.push(Finding::new(
+                        format!("column-values-differ-after-{what}"),
+                        format!("id {id}: column `{}` differs from the model", m.names[c]),
+                        json!({"id": id, "column": m.names[c], "model": render_row(e), "scan": render_row(r)}),
+                    ));
+                    break;
+                }
+            }
+        }
+    }
+    if seen.len() != m.rows.len() && out.is_empty() {
+        let missing: Vec<&i64> = m.rows.keys().filter(|k| !seen.contains(k)).take(10).collect();
+        out.push(Finding::new(
+            format!("rows-missing-after-{what}"),
+            format!("{} model rows missing", m.rows.len() - seen.len()),
+            json!({"ids": missing}),
+        ));
+    }
+    if schema_op {
+        if let Some(b) = before_order {
+            if b != order.as_slice() {
+                out.push(Finding::new(
+                    format!("row-order-changed-by-{what}"),
+                    "a schema operation changed the order of rows in the ordered scan",
+                    json!({"before": b.iter().take(30).collect::<Vec<_>>(), "after": order.iter().take(30).collect::<Vec<_>>()}),
+                ));
+            }
+        }
+    }
+    out
+}
+
+struct St {
+    actor: Actor,
+    uri: String,
+    ds: Dataset,
+    cols: Vec<CCol>,
+    m: M,
+    ids: IdAlloc,
+    vseq: i64,
+    dropped_names: Vec<String>,
+    dead_field_ids: BTreeSet<i32>,
+    name_seq: usize,
+    log: Vec<String>,
+    version: LanceFileVersion,
+}
+
+fn f_of_id(id: i64, salt: i64) -> Option<i64> {
+    // deterministic "precomputed" column: NULL for some ids
+    let h = (id.wrapping_mul(0x9E37_79B9_7F4A_7C15u64 as i64) ^ salt) >> 7;
+    if h % 5 == 0 {
+        None
+    } else {
+        Some(h % 1000)
+    }
+}
+
+impl St {
+    fn schema(&self) -> SchemaRef {
+        Arc::new(Schema::new(
+            self.cols
+                .iter()
+                .map(|c| Field::new(&c.name, c.dt.clone(), c.nullable))
+                .collect::<Vec<_>>(),
+        ))
+    }
+    fn col(&self, name: &str) -> Option<usize> {
+        self.cols.iter().position(|c| c.name == name)
+    }
+    fn fresh_name(&mut self, rng: &mut Rng) -> String {
+        if !self.dropped_names.is_empty() && rng.chance(1, 2) {
+            // re-add under a dropped name
+            let i = rng.usize_below(self.dropped_names.len());
+            let n = self.dropped_names[i].clone();
+            if self.col(&n).is_none() {
+                return n;
+            }
+        }
+        self.name_seq += 1;
+        format!("n{}", self.name_seq)
+    }
+    fn gen_rows(&mut self, rng: &mut Rng, ids: &[i64]) -> RecordBatch {
+        let n = ids.len();
+        let mut arrays: Vec<ArrayRef> = vec![];
+        for (j, c) in self.cols.iter().enumerate() {
+            if j == 0 {
+                arrays.push(Arc::new(Int64Array::from(ids.to_vec())));
+            } else if c.name == "v" && c.dt == DataType::Int64 {
+                let vs: Vec<i64> = (0..n as i64).map(|i| 1_000_000 + self.vseq + i).collect();
+                arrays.push(Arc::new(Int64Array::from(vs)));
+            } else if let Some(spec) = &c.spec {
+                let mut s = spec.clone();
+                s.nullable = c.nullable;
+                if s.ty == ColTy::StructIS {
+                    // no struct-level NULLs (2.0 does not store them; see hist.rs)
+                    s.null_eighths = 0;
+                }
+                arrays.push(gen_column(rng, &s, n));
+            } else {
+                let e8 = if matches!(c.dt, DataType::Struct(_)) { 0 } else { *rng.pick(&[0u8, 1, 4]) };
+                arrays.push(gen_array(rng, &c.dt, n, c.nullable, e8, true));
+            }
+        }
+        self.vseq += n as i64;
+        RecordBatch::try_new(self.schema(), arrays).expect("append batch in evolved schema")
+    }
+    /// re-read column types / nullability from the dataset (names and order are the model's)
+    fn refresh_types(&mut self) {
+        let schema: Schema = self.ds.schema().into();
+        for (c, f) in self.cols.iter_mut().zip(schema.fields()) {
+            if &c.name == f.name() {
+                if &c.dt != f.data_type() {
+                    c.spec = None;
+                }
+                c.dt = f.data_type().clone();
+                c.nullable = f.is_nullable();
+            }
+        }
+    }
+    fn note_dead_fields(&mut self, before: &lance::datatypes::Schema) {
+        let now: BTreeSet<i32> = self.ds.schema().fields_pre_order().map(|f| f.id).collect();
+        for f in before.fields_pre_order() {
+            if !now.contains(&f.id) {
+                self.dead_field_ids.insert(f.id);
+            }
+        }
+    }
+}
+
+#[derive(Clone, Debug)]
+enum Sql {
+    VPlus(i64),
+    IdMod(i64),
+    CopyK,
+    KIsNull,
+    Lit(i64),
+    StrLit(&'static str),
+}
+
+impl Sql {
+    fn text(&self) -> String {
+        match self {
+            Sql::VPlus(c) => format!("v + {c}"),
+            Sql::IdMod(m) => format!("id % {m}"),
+            Sql::CopyK => "k".into(),
+            Sql::KIsNull => "k IS NULL".into(),
+            Sql::Lit(x) => format!("{x}"),
+            Sql::StrLit(s) => format!("'{s}'"),
+        }
+    }
+    fn needs(&self) -> Option<&'static str> {
+        match self {
+            Sql::VPlus(_) => Some("v"),
+            Sql::CopyK | Sql::KIsNull => Some("k"),
+            _ => None,
+        }
+    }
+    fn eval(&self, id: i64, v: &Cell, k: &Cell) -> Cell {
+        match self {
+            Sql::VPlus(c) => match v {
+                Cell::Int(x) => Cell::Int(x + *c as i128),
+                _ => Cell::Null,
+            },
+            Sql::IdMod(m) => Cell::Int((id % m) as i128),
+            Sql::CopyK => k.clone(),
+            Sql::KIsNull => Cell::Bool(k.is_null()),
+            Sql::Lit(x) => Cell::Int(*x as i128),
+            Sql::StrLit(s) => Cell::Str(s.to_string()),
+        }
+    }
+}
+
+struct Ctx<'a> {
+    report: &'a Report,
+    ops: &'a Histo,
+    diag: &'a Histo,
+}
+
+fn struct_rename(c: &Cell, from: &str, to: &str) -> Cell {
+    match c {
+        Cell::Struct(v) => Cell::Struct(
+            v.iter()
+                .map(|(k, x)| (if k == from { to.to_string() } else { k.clone() }, x.clone()))
+                .collect(),
+        ),
+        other => other.clone(),
+    }
+}
+
+fn struct_drop(c: &Cell, child: &str) -> Cell {
+    match c {
+        Cell::Struct(v) => Cell::Struct(v.iter().filter(|(k, _)| k != child).cloned().collect()),
+        other => other.clone(),
+    }
+}
+
+/// Executes one random step. Returns (op kind, is schema op, applied?) or a failure to classify.
+async fn step(st: &mut St, rng: &mut Rng, before: &Scan, before_batches: &[RecordBatch]) -> (String, bool, Result<bool, Fail>) {
+    let kind = *rng.pick_weighted(&[
+        (3, "add_sql"),
+        (2, "add_all_nulls"),
+        (2, "add_udf"),
+        (2, "add_reader"),
+        (1, "add_stream"),
+        (2, "merge_join"),
+        (3, "rename"),
+        (2, "rename_nested"),
+        (3, "cast"),
+        (1, "set_nullable"),
+        (3, "drop"),
+        (1, "drop_nested"),
+        (4, "append"),
+        (3, "delete"),
+        (3, "compact"),
+    ]);
+    let ids_in_order: Vec<i64> = before.rows.iter().map(|r| r[0].as_i64().unwrap()).collect();
+    let schema_before = st.ds.schema().clone();
+    let mut d = st.ds.clone();
+    match kind {
+        "add_sql" => {
+            let n = rng.urange(1, 2);
+            let mut exprs = vec![];
+            for _ in 0..n {
+                let e = match rng.below(6) {
+                    0 => Sql::VPlus(rng.range(-5, 5)),
+                    1 => Sql::IdMod(rng.range(2, 9)),
+                    2 => Sql::CopyK,
+                    3 => Sql::KIsNull,
+                    4 => Sql::Lit(rng.range(-3, 3)),
+                    _ => Sql::StrLit(*rng.pick(&["abc", "", "é"])),
+                };
+                if let Some(c) = e.needs() {
+                    let ok = match c {
+                        "v" => st.col("v").map(|p| st.cols[p].dt == DataType::Int64).unwrap_or(false),
+                        _ => st.col("k").map(|p| st.cols[p].dt == DataType::Int32).unwrap_or(false),
+                    };
+                    if !ok {
+                        continue;
+                    }
+                }
+                let name = st.fresh_name(rng);
+                if exprs.iter().any(|(n, _): &(String, Sql)| n == &name) {
+                    continue;
+                }
+                exprs.push((name, e));
+            }
+            if exprs.is_empty() {
+                return (kind.into(), true, Ok(false));
+            }
+            let t = NewColumnTransform::SqlExpressions(exprs.iter().map(|(n, e)| (n.clone(), e.text())).collect());
+            let bs = *rng.pick(&[None, Some(1u32), Some(3), Some(100)]);
+            st.log.push(format!("add_columns SQL {:?} batch_size={bs:?}", exprs.iter().map(|(n, e)| format!("{n}={}", e.text())).collect::<Vec<_>>()));
+            let r = guard(async {
+                d.add_columns(t, None, bs).await?;
+                Ok(d)
+            })
+            .await;
+            match r {
+                Err(e) => (kind.into(), true, Err(e)),
+                Ok(d) => {
+                    st.ds = d;
+                    let (vp, kp) = (st.col("v"), st.col("k"));
+                    for (id, row) in st.m.rows.iter_mut() {
+                        let v = vp.map(|p| row[p].clone()).unwrap_or(Cell::Null);
+                        let k = kp.map(|p| row[p].clone()).unwrap_or(Cell::Null);
+                        for (_, e) in &exprs {
+                            row.push(e.eval(*id, &v, &k));
+                        }
+                    }
+                    for (n, _) in &exprs {
+                        st.m.names.push(n.clone());
+                        st.cols.push(CCol { name: n.clone(), dt: DataType::Null, nullable: true, spec: None });
+                    }
+                    (kind.into(), true, Ok(true))
+                }
+            }
+        }
+        "add_all_nulls" => {
+            let name = st.fresh_name(rng);
+            let dt = rng
+                .pick(&[DataType::Int32, DataType::Utf8, DataType::Float64, DataType::Boolean, DataType::Int64])
+                .clone();
+            let sch = Arc::new(Schema::new(vec![Field::new(&name, dt.clone(), true)]));
+            st.log.push(format!("add_columns AllNulls {name}:{}", type_tag(&dt)));
+            let r = guard(async {
+                d.add_columns(NewColumnTransform::AllNulls(sch), None, None).await?;
+                Ok(d)
+            })
+            .await;
+            match r {
+                Err(e) => (kind.into(), true, Err(e)),
+                Ok(d) => {
+                    st.ds = d;
+                    for row in st.m.rows.values_mut() {
+                        row.push(Cell::Null);
+                    }
+                    st.m.names.push(name.clone());
+                    st.cols.push(CCol { name, dt, nullable: true, spec: None });
+                    (kind.into(), true, Ok(true))
+                }
+            }
+        }
+        "add_udf" => {
+            let name = st.fresh_name(rng);
+            let salt = rng.range(0, 1 << 20);
+            let out_schema = Arc::new(Schema::new(vec![Field::new(&name, DataType::Int64, true)]));
+            let os2 = out_schema.clone();
+            let mapper = move |b: &RecordBatch| -> lance::Result<RecordBatch> {
+                let ids = b
+                    .column_by_name("id")
+                    .and_then(|c| c.as_any().downcast_ref::<Int64Array>().cloned())
+                    .expect("udf: id column requested through read_columns");
+                let mut bld = Int64Builder::new();
+                for i in 0..ids.len() {
+                    bld.append_option(f_of_id(ids.value(i), salt));
+                }
+                Ok(RecordBatch::try_new(os2.clone(), vec![Arc::new(bld.finish())])?)
+            };
+            let udf = BatchUDF { mapper: Box::new(mapper), output_schema: out_schema, result_checkpoint: None };
+            let bs = *rng.pick(&[None, Some(2u32), Some(7)]);
+            st.log.push(format!("add_columns BatchUDF {name}=f(id,{salt}) batch_size={bs:?}"));
+            let r = guard(async {
+                d.add_columns(NewColumnTransform::BatchUDF(udf), Some(vec!["id".into()]), bs).await?;
+                Ok(d)
+            })
+            .await;
+            match r {
+                Err(e) => (kind.into(), true, Err(e)),
+                Ok(d) => {
+                    st.ds = d;
+                    for (id, row) in st.m.rows.iter_mut() {
+                        row.push(f_of_id(*id, salt).map(|x| Cell::Int(x as i128)).unwrap_or(Cell::Null));
+                    }
+                    st.m.names.push(name.clone());
+                    st.cols.push(CCol { name, dt: DataType::Int64, nullable: true, spec: None });
+                    (kind.into(), true, Ok(true))
+                }
+            }
+        }
+        "add_reader" | "add_stream" => {
+            // row-aligned values in the order of the ordered scan, random batch boundaries
+            let name = st.fresh_name(rng);
+            let salt = rng.range(0, 1 << 20);
+            let use_str = rng.chance(1, 3);
+            let dt = if use_str { DataType::Utf8 } else { DataType::Int64 };
+            let out_schema = Arc::new(Schema::new(vec![Field::new(&name, dt.clone(), true)]));
+            let mut batches = vec![];
+            let mut at = 0;
+            while at < ids_in_order.len() {
+                let take = rng.urange(1, (ids_in_order.len() - at).min(9));
+                let arr: ArrayRef = if use_str {
+                    let mut b = StringBuilder::new();
+                    for id in &ids_in_order[at..at + take] {
+                        b.append_option(f_of_id(*id, salt).map(|x| format!("s{x}")));
+                    }
+                    Arc::new(b.finish())
+                } else {
+                    let mut b = Int64Builder::new();
+                    for id in &ids_in_order[at..at + take] {
+                        b.append_option(f_of_id(*id, salt));
+                    }
+                    Arc::new(b.finish())
+                };
+                batches.push(Ok(RecordBatch::try_new(out_schema.clone(), vec![arr]).unwrap()));
+                at += take;
+            }
+            if batches.is_empty() {
+                return (kind.into(), true, Ok(false));
+            }
+            let reader = RecordBatchIterator::new(batches, out_schema);
+            let t = if kind == "add_reader" {
+                NewColumnTransform::Reader(Box::new(reader))
+            } else {
+                NewColumnTransform::Stream(lance_datafusion::utils::reader_to_stream(Box::new(reader)))
+            };
+            st.log.push(format!("add_columns {kind} {name}=f(id,{salt}) as {}", type_tag(&dt)));
+            let r = guard(async {
+                d.add_columns(t, None, None).await?;
+                Ok(d)
+            })
+            .await;
+            match r {
+                Err(e) => (kind.into(), true, Err(e)),
+                Ok(d) => {
+                    st.ds = d;
+                    for (id, row) in st.m.rows.iter_mut() {
+                        row.push(match f_of_id(*id, salt) {
+                            None => Cell::Null,
+                            Some(x) if use_str => Cell::Str(format!("s{x}")),
+                            Some(x) => Cell::Int(x as i128),
+                        });
+                    }
+                    st.m.names.push(name.clone());
+                    st.cols.push(CCol { name, dt, nullable: true, spec: None });
+                    (kind.into(), true, Ok(true))
+                }
+            }
+        }
+        "merge_join" => {
+            // right side: a subset of the live ids + ids that do not exist, shuffled
+            let name = st.fresh_name(rng);
+            let salt = rng.range(0, 1 << 20);
+            let mut right: Vec<i64> = ids_in_order.iter().filter(|_| rng.chance(2, 3)).copied().collect();
+            right.push(i64::MAX - rng.range(1, 1000));
+            rng.shuffle(&mut right);
+            let sch = Arc::new(Schema::new(vec![
+                Field::new("id", DataType::Int64, false),
+                Field::new(&name, DataType::Int64, true),
+            ]));
+            let vals: Vec<Option<i64>> = right.iter().map(|id| f_of_id(*id, salt)).collect();
+            let hit: BTreeMap<i64, Option<i64>> = right.iter().copied().zip(vals.iter().copied()).collect();
+            let b = RecordBatch::try_new(
+                sch.clone(),
+                vec![Arc::new(Int64Array::from(right.clone())), Arc::new(Int64Array::from(vals))],
+            )
+            .unwrap();
+            let reader = RecordBatchIterator::new(vec![Ok(b)], sch);
+            st.log.push(format!("merge on id: {name}=f(id,{salt}) for {} of {} rows (+1 unknown id)", right.len() - 1, ids_in_order.len()));
+            let r = guard(async {
+                d.merge(reader, "id", "id").await?;
+                Ok(d)
+            })
+            .await;
+            match r {
+                Err(e) => (kind.into(), true, Err(e)),
+                Ok(d) => {
+                    st.ds = d;
+                    for (id, row) in st.m.rows.iter_mut() {
+                        row.push(match hit.get(id) {
+                            Some(Some(x)) => Cell::Int(*x as i128),
+                            _ => Cell::Null, // miss (or NULL on the right side) => NULL
+                        });
+                    }
+                    st.m.names.push(name.clone());
+                    st.cols.push(CCol { name, dt: DataType::Int64, nullable: true, spec: None });
+                    (kind.into(), true, Ok(true))
+                }
+            }
+        }
+        "rename" => {
+            if st.cols.len() < 2 {
+                return (kind.into(), true, Ok(false));
+            }
+            let j = rng.urange(1, st.cols.len() - 1);
+            let old = st.cols[j].name.clone();
+            let new = st.fresh_name(rng);
+            st.log.push(format!("alter_columns rename {old} -> {new}"));
+            let alt = ColumnAlteration::new(old.clone()).rename(new.clone());
+            let r = guard(async {
+                d.alter_columns(&[alt]).await?;
+                Ok(d)
+            })
+            .await;
+            match r {
+                Err(e) => (kind.into(), true, Err(e)),
+                Ok(d) => {
+                    st.ds = d;
+                    st.cols[j].name = new.clone();
+                    st.m.names[j] = new;
+                    st.dropped_names.push(old);
+                    (kind.into(), true, Ok(true))
+                }
+            }
+        }
+        "rename_nested" | "drop_nested" => {
+            let Some(j) = st.cols.iter().position(|c| matches!(&c.dt, DataType::Struct(f) if f.len() >= 2)) else {
+                return (kind.into(), true, Ok(false));
+            };
+            let DataType::Struct(fields) = st.cols[j].dt.clone() else { unreachable!() };
+            let child = fields[rng.usize_below(fields.len())].name().clone();
+            let path = format!("{}.{}", st.cols[j].name, child);
+            if kind == "rename_nested" {
+                st.name_seq += 1;
+                let new = format!("c{}", st.name_seq);
+                st.log.push(format!("alter_columns rename {path} -> {new}"));
+                let alt = ColumnAlteration::new(path).rename(new.clone());
+                let r = guard(async {
+                    d.alter_columns(&[alt]).await?;
+                    Ok(d)
+                })
+                .await;
+                match r {
+                    Err(e) => (kind.into(), true, Err(e)),
+                    Ok(d) => {
+                        st.ds = d;
+                        for row in st.m.rows.values_mut() {
+                            row[j] = struct_rename(&row[j], &child, &new);
+                        }
+                        (kind.into(), true, Ok(true))
+                    }
+                }
+            } else {
+                st.log.push(format!("drop_columns [{path}]"));
+                let r = guard(async {
+                    d.drop_columns(&[path.as_str()]).await?;
+                    Ok(d)
+                })
+                .await;
+                match r {
+                    Err(e) => (kind.into(), true, Err(e)),
+                    Ok(d) => {
+                        st.ds = d;
+                        for row in st.m.rows.values_mut() {
+                            row[j] = struct_drop(&row[j], &child);
+                        }
+                        st.cols[j].spec = None;
+                        (kind.into(), true, Ok(true))
+                    }
+                }
+            }
+        }
+        "cast" => {
+            // candidates: (column, target type)
+            let mut cands: Vec<(usize, DataType)> = vec![];
+            for (j, c) in st.cols.iter().enumerate().skip(1) {
+                let targets: Vec<DataType> = match &c.dt {
+                    t if t.is_integer() => vec![DataType::Int8, DataType::Int16, DataType::Int32, DataType::Int64, DataType::UInt16, DataType::UInt64],
+                    DataType::Float32 => vec![DataType::Float64, DataType::Float16],
+                    DataType::Float64 => vec![DataType::Float32],
+                    DataType::Utf8 => vec![DataType::LargeUtf8],
+                    DataType::LargeUtf8 => vec![DataType::Utf8],
+                    DataType::Binary => vec![DataType::LargeBinary],
+                    DataType::Date32 => vec![DataType::Date64],
+                    DataType::Timestamp(_, tz) => vec![
+                        DataType::Timestamp(arrow_schema::TimeUnit::Millisecond, tz.clone()),
+                        DataType::Timestamp(arrow_schema::TimeUnit::Nanosecond, tz.clone()),
+                        DataType::Timestamp(arrow_schema::TimeUnit::Second, tz.clone()),
+                    ],
+                    _ => vec![],
+                };
+                for t in targets {
+                    if t != c.dt {
+                        cands.push((j, t));
+                    }
+                }
+            }
+            if cands.is_empty() {
+                return (kind.into(), true, Ok(false));
+            }
+            let (j, target) = rng.pick(&cands).clone();
+            let name = st.cols[j].name.clone();
+            // reference cast on the scanned column (== model, verified before the step)
+            let mut expected: BTreeMap<i64, Cell> = BTreeMap::new();
+            let mut ref_fails = false;
+            for b in before_batches {
+                let col = b.column(j);
+                match arrow_cast::cast_with_options(
+                    col,
+                    &target,
+                    &arrow_cast::CastOptions { safe: false, ..Default::default() },
+                ) {
+                    Ok(a) => {
+                        for i in 0..b.num_rows() {
+                            let id = cell_at(b.column(0).as_ref(), i).as_i64().unwrap();
+                            expected.insert(id, cell_at(a.as_ref(), i));
+                        }
+                    }
+                    Err(_) => ref_fails = true,
+                }
+            }
+            st.log.push(format!(
+                "alter_columns cast {name}: {} -> {} (reference cast {})",
+                type_tag(&st.cols[j].dt),
+                type_tag(&target),
+                if ref_fails { "is lossy => expect rejection" } else { "ok" }
+            ));
+            let alt = ColumnAlteration::new(name.clone()).cast_to(target.clone());
+            let r = guard(async {
+                d.alter_columns(&[alt]).await?;
+                Ok(d)
+            })
+            .await;
+            match r {
+                Err(e) => (if ref_fails { "cast_lossy".into() } else { kind.into() }, true, Err(e)),
+                Ok(d) => {
+                    st.ds = d;
+                    if ref_fails {
+                        // Lance accepted a cast that the reference (safe=false) refuses
+                        st.log.push("   accepted although the reference cast fails".into());
+                        return (
+                            "cast_lossy_accepted".into(),
+                            true,
+                            Err(Fail::Err { class: "HarnessMarker".into(), msg: format!("lossy cast of {name} to {target:?} accepted") }),
+                        );
+                    }
+                    for (id, row) in st.m.rows.iter_mut() {
+                        if let Some(c) = expected.get(id) {
+                            row[j] = c.clone();
+                        }
+                    }
+                    st.cols[j].dt = target;
+                    st.cols[j].spec = None;
+                    (kind.into(), true, Ok(true))
+                }
+            }
+        }
+        "set_nullable" => {
+            let j = rng.urange(1, st.cols.len() - 1);
+            let to = rng.chance(3, 4);
+            let name = st.cols[j].name.clone();
+            st.log.push(format!("alter_columns {name} nullable={to} (was {})", st.cols[j].nullable));
+            let alt = ColumnAlteration::new(name).set_nullable(to);
+            let r = guard(async {
+                d.alter_columns(&[alt]).await?;
+                Ok(d)
+            })
+            .await;
+            match r {
+                Err(e) => (kind.into(), true, Err(e)),
+                Ok(d) => {
+                    st.ds = d;
+                    (kind.into(), true, Ok(true))
+                }
+            }
+        }
+        "drop" => {
+            if st.cols.len() <= 2 {
+                return (kind.into(), true, Ok(false));
+            }
+            let n = rng.urange(1, 2.min(st.cols.len() - 2));
+            let mut which: Vec<usize> = rng.sample_indices(st.cols.len() - 1, n).into_iter().map(|i| i + 1).collect();
+            which.sort();
+            let names: Vec<String> = which.iter().map(|j| st.cols[*j].name.clone()).collect();
+            st.log.push(format!("drop_columns {names:?}"));
+            let r = guard(async {
+                let refs: Vec<&str> = names.iter().map(|s| s.as_str()).collect();
+                d.drop_columns(&refs).await?;
+                Ok(d)
+            })
+            .await;
+            match r {
+                Err(e) => (kind.into(), true, Err(e)),
+                Ok(d) => {
+                    st.ds = d;
+                    for j in which.iter().rev() {
+                        st.cols.remove(*j);
+                        st.m.names.remove(*j);
+                        for row in st.m.rows.values_mut() {
+                            row.remove(*j);
+                        }
+                    }
+                    st.dropped_names.extend(names);
+                    (kind.into(), true, Ok(true))
+                }
+            }
+        }
+        "append" => {
+            let n = rng.urange(1, 10);
+            let ids = st.ids.take(n);
+            let b = st.gen_rows(rng, &ids);
+            let mut params = st.actor.write_params(WriteMode::Append);
+            params.max_rows_per_file = *rng.pick(&[2usize, 4, 1000]);
+            st.log.push(format!("append {n} rows in the current schema"));
+            let reader = RecordBatchIterator::new(vec![Ok(b.clone())], b.schema());
+            let r = guard(async {
+                d.append(reader, Some(params)).await?;
+                Ok(d)
+            })
+            .await;
+            match r {
+                Err(e) => (kind.into(), false, Err(e)),
+                Ok(d) => {
+                    st.ds = d;
+                    for i in 0..b.num_rows() {
+                        let row: Row = b.columns().iter().map(|c| cell_at(c.as_ref(), i)).collect();
+                        st.m.rows.insert(row[0].as_i64().unwrap(), row);
+                    }
+                    (kind.into(), false, Ok(true))
+                }
+            }
+        }
+        "delete" => {
+            if ids_in_order.is_empty() {
+                return (kind.into(), false, Ok(false));
+            }
+            let m = rng.range(2, 5);
+            let r0 = rng.range(0, m - 1);
+            let pred = format!("id % {m} = {r0}");
+            st.log.push(format!("delete where {pred}"));
+            let r = guard(async {
+                d.delete(&pred).await?;
+                Ok(d)
+            })
+            .await;
+            match r {
+                Err(e) => (kind.into(), false, Err(e)),
+                Ok(d) => {
+                    st.ds = d;
+                    st.m.rows.retain(|id, _| id % m != r0);
+                    (kind.into(), false, Ok(true))
+                }
+            }
+        }
+        _ => {
+            let opts = lance::dataset::optimize::CompactionOptions {
+                target_rows_per_fragment: *rng.pick(&[4usize, 16, 1 << 20]),
+                materialize_deletions_threshold: *rng.pick(&[0.0f32, 0.1, 0.5]),
+                batch_size: *rng.pick(&[None, Some(3usize)]),
+                ..Default::default()
+            };
+            st.log.push(format!("compact_files target={} thr={}", opts.target_rows_per_fragment, opts.materialize_deletions_threshold));
+            let r = guard(async {
+                compact_files(&mut d, opts, None).await?;
+                Ok(d)
+            })
+            .await;
+            let _ = schema_before;
+            match r {
+                Err(e) => ("compact".into(), false, Err(e)),
+                Ok(d) => {
+                    st.ds = d;
+                    ("compact".into(), false, Ok(true))
+                }
+            }
+        }
+    }
+}
+
+fn corrupt(s: &mut Scan, rng: &mut Rng) -> bool {
+    if s.rows.len() < 2 {
+        return false;
+    }
+    match rng.below(4) {
+        0 => {
+            // two rows swap the value of the last column (an "untouched" column changed)
+            let c = s.names.len() - 1;
+            if s.rows[0][c] == s.rows[1][c] {
+                s.rows[0][c] = Cell::Other("corrupted".into());
+            } else {
+                let t = s.rows[0][c].clone();
+                s.rows[0][c] = s.rows[1][c].clone();
+                s.rows[1][c] = t;
+            }
+            true
+        }
+        1 => {
+            s.rows.swap(0, 1);
+            true
+        }
+        2 => {
+            if s.field_ids.len() >= 2 {
+                s.field_ids[1] = s.field_ids[0];
+                true
+            } else {
+                false
+            }
+        }
+        _ => {
+            s.rows.pop();
+            true
+        }
+    }
+}
+
+async fn run_case(cx: &Ctx<'_>, seed: u64, idx: u64, thorough: bool, selftest: bool) -> (u64, u64) {
+    let mut rng = Rng::for_case(seed, idx);
+    let version = *rng.pick_weighted(&[(3, LanceFileVersion::V2_0), (3, LanceFileVersion::V2_1), (1, LanceFileVersion::V2_2)]);
+    let stable = rng.bool();
+    // ---- initial schema: id, v, k, s, st{a,s} (nested), + 0..2 scalars
+    let mut specs: Vec<ColSpec> = vec![
+        ColSpec { name: "v".into(), ty: ColTy::I64, nullable: false, null_eighths: 0, small_domain: false },
+        ColSpec { name: "k".into(), ty: ColTy::I32, nullable: true, null_eighths: 2, small_domain: true },
+        ColSpec { name: "s".into(), ty: ColTy::Utf8, nullable: true, null_eighths: 2, small_domain: true },
+    ];
+    if rng.chance(2, 3) {
+        specs.push(ColSpec { name: "st".into(), ty: ColTy::StructIS, nullable: false, null_eighths: 0, small_domain: true });
+    }
+    let pool = {
+        let mut p = ColTy::scalar_pool();
+        p.extend([ColTy::Dec128(12, 3), ColTy::FslF32(4), ColTy::DictUtf8]);
+        p
+    };
+    for i in 0..rng.urange(0, 2) {
+        specs.push(ColSpec {
+            name: format!("x{i}"),
+            ty: rng.pick(&pool).clone(),
+            nullable: rng.bool(),
+            null_eighths: *rng.pick(&[0u8, 1, 4]),
+            small_domain: rng.bool(),
+        });
+    }
+    let mut cols = vec![CCol { name: "id".into(), dt: DataType::Int64, nullable: false, spec: None }];
+    for s in &specs {
+        cols.push(CCol { name: s.name.clone(), dt: s.ty.arrow(), nullable: s.nullable, spec: Some(s.clone()) });
+    }
+    let world = World::memory();
+    let actor = Actor::new(world.new_actor(0));
+    let uri = format!("memory://c14-{seed}-{idx}");
+    // placeholder state to use gen_rows before the dataset exists
+    let mut ids = IdAlloc::new((idx % 4000) as usize + 1);
+    let n0 = rng.urange(6, 30);
+    let first = ids.take(n0);
+    let names: Vec<String> = cols.iter().map(|c| c.name.clone()).collect();
+    let schema = Arc::new(Schema::new(cols.iter().map(|c| Field::new(&c.name, c.dt.clone(), c.nullable)).collect::<Vec<_>>()));
+    let mut arrays: Vec<ArrayRef> = vec![Arc::new(Int64Array::from(first.clone()))];
+    arrays.push(Arc::new(Int64Array::from((0..n0 as i64).map(|i| 1_000_000 + i).collect::<Vec<_>>())));
+    for s in specs.iter().skip(1) {
+        arrays.push(gen_column(&mut rng, s, n0));
+    }
+    let b0 = RecordBatch::try_new(schema.clone(), arrays).unwrap();
+    let mut params = actor.write_params(WriteMode::Create);
+    params.max_rows_per_file = *rng.pick(&[3usize, 5, 8, 1000]);
+    params.enable_stable_row_ids = stable;
+    params.data_storage_version = Some(version);
+    let reader = RecordBatchIterator::new(vec![Ok(b0.clone())], schema);
+    let ds = match guard(Dataset::write(reader, uri.as_str(), Some(params))).await {
+        Ok(d) => d,
+        Err(e) => {
+            cx.report.harness_error(&format!("case {idx}: create failed: {}", e.brief()));
+            return (0, 0);
+        }
+    };
+    let mut rows = BTreeMap::new();
+    for i in 0..b0.num_rows() {
+        let row: Row = b0.columns().iter().map(|c| cell_at(c.as_ref(), i)).collect();
+        rows.insert(row[0].as_i64().unwrap(), row);
+    }
+    let mut st = St {
+        actor,
+        uri,
+        ds,
+        cols,
+        m: M { names, rows },
+        ids,
+        vseq: n0 as i64,
+        dropped_names: vec![],
+        dead_field_ids: BTreeSet::new(),
+        name_seq: 0,
+        log: vec![format!("create {n0} rows version={version:?} stable={stable} cols={}", specs.iter().map(|s| format!("{}:{:?}", s.name, s.ty)).collect::<Vec<_>>().join(","))],
+        version,
+    };
+    let nsteps = if thorough { rng.urange(6, 20) } else { rng.urange(5, 12) };
+    let mut kinds: Vec<String> = vec![];
+    let mut cells_compared = 0u64;
+    let mut schema_ops = 0u64;
+    let mut readd = 0u64;
+    let (mut applied, mut detected) = (0u64, 0u64);
+    let (mut before, mut before_batches) = match guard(scan(&st.ds)).await {
+        Ok(x) => x,
+        Err(e) => {
+            cx.report.inconclusive(&format!("case {idx}: first scan failed: {}", e.brief()));
+            return (0, 0);
+        }
+    };
+    for stepno in 0..nsteps {
+        let names_before: BTreeSet<String> = st.m.names.iter().cloned().collect();
+        let lschema_before = st.ds.schema().clone();
+        let m_before = st.m.clone();
+        let cols_before = st.cols.clone();
+        let (kind, schema_op, res) = step(&mut st, &mut rng, &before, &before_batches).await;
+        cx.ops.add(&kind, 1);
+        let witness = |st: &St, extra: serde_json::Value| json!({"seed": seed, "case": idx, "step": stepno, "op": kind, "detail": extra, "history": st.log});
+        match res {
+            Ok(false) => continue,
+            Ok(true) => {
+                st.refresh_types();
+                st.note_dead_fields(&lschema_before);
+                kinds.push(kind.clone());
+                if schema_op {
+                    schema_ops += 1;
+                }
+                if st.m.names.iter().any(|n| !names_before.contains(n) && st.dropped_names.contains(n)) {
+                    readd += 1;
+                }
+            }
+            Err(f) => {
+                st.log.push(format!("   -> {}", f.brief().chars().take(200).collect::<String>()));
+                st.m = m_before;
+                st.cols = cols_before;
+                if f.class() == "HarnessMarker" {
+                    cx.report.violation(
+                        "lossy-cast-accepted",
+                        "alter_columns accepted a cast that arrow_cast with safe=false rejects",
+                        witness(&st, json!({"what": f.msg()})),
+                    );
+                    return (applied, detected);
+                }
+                if f.is_clean_rejection() {
+                    cx.report.rejected();
+                    cx.diag.add(&format!("rejected:{kind}:{}", f.msg().chars().take(90).collect::<String>()), 1);
+                } else {
+                    cx.diag.add(&format!("failed:{kind}:{}", f.key()), 1);
+                }
+                // no effect expected: re-open and fall through to the comparison with the old model
+                match guard(st.actor.open(&st.uri)).await {
+                    Ok(d) => st.ds = d,
+                    Err(e) => {
+                        cx.report.violation(
+                            &format!("table-unreadable-after-failed-{kind}"),
+                            "the table cannot be opened after a rejected schema operation",
+                            witness(&st, json!({"error": e.brief()})),
+                        );
+                        return (applied, detected);
+                    }
+                }
+            }
+        }
+        let ds_after = if rng.chance(1, 3) {
+            match guard(st.actor.fresh_session().open(&st.uri)).await {
+                Ok(d) => d,
+                Err(_) => st.ds.clone(),
+            }
+        } else {
+            st.ds.clone()
+        };
+        let (mut after, after_batches) = match guard(scan(&ds_after)).await {
+            Ok(x) => x,
+            Err(e) => {
+                cx.report.violation(
+                    &format!("scan-failed-after-{kind}"),
+                    "the table cannot be scanned after a schema evolution step",
+                    witness(&st, json!({"error": e.brief()})),
+                );
+                return (applied, detected);
+            }
+        };
+        let order_before: Vec<i64> = before.rows.iter().filter_map(|r| r[0].as_i64()).collect();
+        if selftest {
+            let mut crng = Rng::for_case(seed ^ 0xABCD, idx * 64 + stepno as u64);
+            let mut a2 = after.clone();
+            if corrupt(&mut a2, &mut crng) {
+                applied += 1;
+                if !oracle(&st.m, Some(&order_before), &a2, &kind, true).is_empty() {
+                    detected += 1;
+                }
+            }
+        } else {
+            let f = oracle(&st.m, Some(&order_before), &after, &kind, schema_op);
+            cells_compared += (after.rows.len() * after.names.len()) as u64;
+            if let Some(f) = f.into_iter().next() {
+                cx.report.violation(&f.sig, &f.what, witness(&st, f.detail));
+                return (0, 0);
+            }
+            // diagnostic only: a dropped field id that comes back
+            if after.field_ids.iter().any(|f| st.dead_field_ids.contains(f)) {
+                cx.report.count("field_id_of_dropped_column_reused", 1);
+                if std::env::var("C14_DEBUG").is_ok() {
+                    println!("DEBUG reuse case {idx} step {stepno} {kind}: ids now {:?} dead {:?}\n  {}", after.field_ids, st.dead_field_ids, st.log.join("\n  "));
+                }
+            }
+        }
+        after.field_ids.clear();
+        before = after;
+        before_batches = after_batches;
+    }
+    if selftest {
+        return (applied, detected);
+    }
+    let _ = st.version;
+    cx.report.count("cells_compared", cells_compared);
+    cx.report.count("schema_ops_applied", schema_ops);
+    cx.report.count("columns_readded_under_dropped_name", readd);
+    let nontrivial = schema_ops >= 2 && !st.m.rows.is_empty() && st.ds.count_fragments() >= 1;
+    let sig = format!("{version:?}|{stable}|{}", kinds.join(","));
+    cx.report.case(if nontrivial { Some(fnv_str(&sig)) } else { None });
+    if nontrivial && cx.report.want_sample() {
+        cx.report.sample(json!({"case": idx, "history": st.log, "final_columns": st.m.names}));
+    }
+    (0, 0)
+}
+
+pub fn run(args: &Args) -> i32 {
+    install_quiet_panic_hook();
+    let report = Report::new(
+        args,
+        "exploration",
+        "One case = a seeded table (id, v, k, s, optional struct st{a,s}, 0-2 random scalar/FSL/dictionary columns; storage \
+         2.0/2.1/2.2; stable row ids on/off) and 5-12 random steps from add_columns (SQL with reference evaluation, AllNulls, \
+         BatchUDF, Reader, Stream), Dataset::merge on id (misses => NULL), alter_columns (rename top-level / struct child, \
+         cast checked against arrow_cast safe=false, nullability), drop_columns (top-level / struct child), re-adding dropped \
+         names, append in the evolved schema, delete, compact_files; after every step all columns by id, column list, row \
+         order (schema ops), unique field ids. Non-trivial = >=2 applied schema operations on a non-empty table; distinct by \
+         (version, stable, applied step kinds).",
+        (60, 900),
+    )
+    .with_min_nontrivial(args.tier.pick(40, 400));
+    let ops = Histo::default();
+    let diag = Histo::default();
+    let cx = Ctx { report: &report, ops: &ops, diag: &diag };
+    let selftest = selftest_requested(args);
+    let thorough = args.tier == vmon::report::Tier::Thorough;
+    let max_cases = if selftest { 60 } else { args.tier.pick(1_500, 40_000) };
+    let stt = std::sync::Mutex::new((0u64, 0u64));
+    if let Some(i) = args.extra.get("case").and_then(|s| s.parse::<u64>().ok()) {
+        let rt = tokio::runtime::Builder::new_current_thread().enable_all().build().unwrap();
+        rt.block_on(run_case(&cx, args.seed, i, thorough, false));
+    } else {
+        run_parallel(&report, max_cases, 16, |i, rt| {
+            let r = rt.block_on(run_case(&cx, args.seed, i, thorough, selftest));
+            let mut g = stt.lock().unwrap();
+            g.0 += r.0;
+            g.1 += r.1;
+        });
+    }
+    if selftest {
+        let g = stt.lock().unwrap();
+        println!("SELFTEST C14 corruptions_applied={} detected={}", g.0, g.1);
+        return if g.0 > 0 && g.0 == g.1 { 0 } else { 2 };
+    }
+    report.set("steps_by_kind", ops.json());
+    report.set("rejections_and_failures", diag.json());
+    report.finish()
 }
